@@ -241,6 +241,24 @@ func (c *Config) Validate() error {
 	if err := c.validateLogging(); err != nil {
 		return err
 	}
+	if err := c.validateListeners(); err != nil {
+		return err
+	}
+	return nil
+}
+
+// validateListeners checks that the listeners that are switched on do not compete for one port:
+// the loser would only log its bind error and the feature would be missing from the running proxy.
+func (c *Config) validateListeners() error {
+	if c.Metrics.Enabled && c.Metrics.Port == c.Server.Port {
+		return fmt.Errorf("metrics port %d is the server port", c.Metrics.Port)
+	}
+	if c.AdminAPI.Enabled && c.AdminAPI.Port == c.Server.Port {
+		return fmt.Errorf("admin API port %d is the server port", c.AdminAPI.Port)
+	}
+	if c.Metrics.Enabled && c.AdminAPI.Enabled && c.Metrics.Port == c.AdminAPI.Port {
+		return fmt.Errorf("metrics and admin API share port %d", c.Metrics.Port)
+	}
 	return nil
 }
 
